@@ -135,6 +135,16 @@ class Noop(ast.NodeTransformer):
         return n
 
 
+class SwapEq(ast.NodeTransformer):
+    """T7: `a == b` -> `b == a`, `a != b` -> `b != a`."""
+
+    def visit_Compare(self, n):
+        self.generic_visit(n)
+        if len(n.ops) == 1 and isinstance(n.ops[0], (ast.Eq, ast.NotEq)):
+            return ast.copy_location(ast.Compare(left=n.comparators[0], ops=n.ops, comparators=[n.left]), n)
+        return n
+
+
 class InvertIf(ast.NodeTransformer):
     """T5: `if c: A else: B` -> `if not c: B else: A` for every two-armed if without elif."""
 
@@ -186,6 +196,8 @@ def main():
             tree = Rename().visit(tree)
         elif kind == 'T4':
             tree = Noop().visit(tree)
+        elif kind == 'T7':
+            tree = SwapEq().visit(tree)
         elif kind == 'T5':
             tree = InvertIf().visit(tree)
         elif kind == 'T6':
